@@ -226,16 +226,66 @@ def overlap_case(rep, cs, seed, i):
     cs.add(desc, term, interp, nontrivial=True)
 
 
+def const_case(rep, cs, seed, i):
+    """Hadamard products that list empty-scope (constant) inputs at different positions in the two operands"""
+    rng = rng_for(seed, PID + "const", i)
+    K = 1
+
+    def const():
+        return L.ConstantValueLayer(K, log_space=False, value=P.Parameter.from_input(P.ConstantParameter(K, value=2.0)))
+
+    def mk(vs):
+        layers, ins = [], {}
+        parts = [emb(v, K) for v in vs] + [const() for _ in range(rng.choice([1, 1, 2]))]
+        rng.shuffle(parts)
+        layers.extend(parts)
+        pl = L.HadamardLayer(K, arity=len(parts))
+        layers.append(pl)
+        ins[pl] = parts
+        out = pl
+        if rng.random() < 0.5:
+            sl = L.SumLayer(K, K, arity=1, weight=P.Parameter.from_input(P.ConstantParameter(K, K, value=1.0)))
+            layers.append(sl)
+            ins[sl] = [pl]
+            out = sl
+        return Circuit(layers, ins, [out])
+
+    vs = list(range(rng.choice([1, 2, 3])))
+    try:
+        a, b = mk(vs), mk(vs)
+    except Exception as e:
+        rep.count("const-build-failed:" + type(e).__name__)
+        return
+    desc = {"i": i, "seed": seed, "op": "multiply", "family": "constant-inputs", "n": len(a.layers)}
+    rep.count("family:constant-inputs")
+    res, err = call(SF.multiply, a, b)
+    rep.count("const:" + (err or "returned"))
+    if res is not None:
+        check_result(rep, desc, "multiply", res, sorted(a.scope._set), 1)
+    ex = export.Exporter()
+    impl = [0 if res is not None else 1]
+    term = (f"[match multiply_m {ex.circuit(a)} {ex.circuit(b)} with Ok p => (if is_smooth p && is_decomposable p then 0 else 7) | Err _ => 1 end]")
+
+    def interp(res_, desc=desc, impl=impl):
+        if res_ != impl:
+            rep.violation("refusal-corr", "the model operator and cirkit disagree on the product of circuits with constant inputs (0 ok, 1 refused, 7 model result not decomposable)",
+                          {"case": desc, "model": res_, "implementation": impl}, found_input=False)
+
+    cs.add(desc, term, interp, nontrivial=True)
+
+
 def run(rep, tier, seed, replay=None):
     n = 300 if tier == "quick" else 5000
     cs = CaseSet(rep, PID)
     if replay is not None:
         c = replay["replay"].get("case", {})
-        (overlap_case if c.get("family") == "overlapping-output-scopes" else one_case)(rep, cs, c.get("seed", seed), c.get("i", 0))
+        {"overlapping-output-scopes": overlap_case, "constant-inputs": const_case}.get(c.get("family"), one_case)(rep, cs, c.get("seed", seed), c.get("i", 0))
         cs.run()
         return
     for i in range(n):
         one_case(rep, cs, seed, i)
     for i in range(max(30, n // 8)):
         overlap_case(rep, cs, seed, i)
+    for i in range(max(20, n // 12)):
+        const_case(rep, cs, seed, i)
     cs.run(shard=max(10, 300 // 14))  # shard size of the quick tier: thorough runs use more files, not longer ones
